@@ -16,7 +16,7 @@ EXPLANATION = (
     "every tick that TickMarker::new's assert!(tick > prev) would reject: the refusal is `tick <= last_tick`, last_tick is assigned "
     "the written tick on the success path, and Writer::write_tick assigns prev_tick the same tick.  R3 (reader tick guard): "
     "current_tick = Some(t) for an absolute marker is dominated by the `previous >= t` false edge; inline deltas use checked_add.  "
-    "R2b: a refused write_snap leaves the writer untouched (every write to *self lies behind the pass edge of the tick test).  Not decided: the round trip of chunk sequences / typed object sets (value level)."
+    "R1c: the writer's largest inline tick delta per format version equals the mask the reader applies for that version.  R2b: a refused write_snap leaves the writer untouched (every write to *self lies behind the pass edge of the tick test).  Not decided: the round trip of chunk sequences / typed object sets (value level)."
 )
 ASSUMPTIONS = [
     "reviewed table lines confirmed by reading the code",
@@ -42,6 +42,7 @@ def run(ctx, rep):
     strictness(ctx.prog, rep)
     reader_ticks(ctx.prog, rep)
     refused_is_inert(ctx.prog, rep)
+    tick_delta_width(ctx.prog, rep)
 
 
 def header_tables(prog, rep):
@@ -304,3 +305,58 @@ def refused_is_inert(prog, rep):
         rep.ob(rule, "%s | %s | %d" % (k[0], k[1], o), ok,
                "`%s` happens only once the tick was accepted" % ef.desc[:80] if ok else
                "`%s` is reachable for a tick that write_snap refuses: the refusal does not leave the writer unchanged" % ef.desc[:80], ws.loc(ef.ln))
+
+
+def tick_delta_width(prog, rep):
+    """R1c: the largest tick delta the writer puts inline for a format version (Version::max_tick_delta) is the mask the
+    reader applies to the marker byte for that version: 5 bits from V5 on (bit 5 is the INLINETICK flag), 6 bits before"""
+    from .C14 import switch_table
+    rule = "R1c-tick-delta-width"
+    mt = prog.one(D + "format::Version::max_tick_delta")
+    tab = switch_table(mt)
+    ver = prog.adt(D + "format::Version")
+    names = [v["name"] for v in ver["variants"]]
+    # arms merged by rustc: the variants not listed take the `otherwise` target
+    from .C14 import arm_constant
+    sw = [bi for bi in sorted(mt.live) if mt.blocks[bi]["term"]["k"] == "switch"]
+    if len(sw) == 1:
+        other = arm_constant(mt, IR(mt), mt.blocks[sw[0]]["term"]["otherwise"])
+        if isinstance(other, int):
+            for v_ in ver["variants"]:
+                tab.setdefault(int(v_["discr"]), other)
+    rd = prog.one(D + "format::ChunkHeader::read")
+    ir = IR(rd)
+    inline_flag = prog.constv(D + "format::CHUNKTICKFLAG_INLINETICK")
+    new_mask = legacy_mask = None
+    for bi in sorted(rd.live):
+        for si, st in enumerate(rd.blocks[bi]["st"]):
+            if st["k"] == "assign" and st["r"]["k"] == "agg" and (st["r"].get("adt") or "").endswith("TickMarker") and st["r"].get("variant") == "Delta":
+                e = ir.rvalue(st["r"], (bi, si))
+                v = e[4][0][1]
+                mask = None
+                for x in walk(v):
+                    if isinstance(x, tuple) and x and x[0] == "bin" and x[1] == "BitAnd" and x[3][0] == "c":
+                        mask = x[3][1]
+                under_inline = False
+                for c, rel, val, edge, dty in ir.edge_conditions(bi):
+                    for x in walk(c):
+                        if isinstance(x, tuple) and x and x[0] == "bin" and x[1] == "BitAnd" and x[3][0] == "c" and x[3][1] == inline_flag:
+                            under_inline = True
+                if under_inline:
+                    new_mask = mask
+                else:
+                    legacy_mask = mask
+    if new_mask is None or legacy_mask is None or not tab:
+        raise AnchorLost("demo tick markers: reader masks (%s, %s) or the max_tick_delta table (%s) not found" % (new_mask, legacy_mask, tab))
+    v5 = names.index("V5")
+    discr = [int(v["discr"]) for v in ver["variants"]]
+    bad = []
+    for vi, nm in enumerate(names):
+        want = new_mask if vi >= v5 else legacy_mask
+        got = tab.get(discr[vi], tab.get(vi) if discr[vi] == vi else None)
+        if got != want:
+            bad.append("%s: writer allows deltas up to %s, reader keeps %s" % (nm, got, want))
+    rep.ob(rule, "writer bound equals reader mask per version", not bad,
+           "max_tick_delta = %s: %#x from V5 on (below the INLINETICK flag %#x), %#x before" % (tab, new_mask, inline_flag, legacy_mask)
+           if not bad else "; ".join(bad) + ": a larger inline delta spills into the flag bits and plays back shortened", mt.loc())
+    rep.ob(rule, "inline delta does not overlap the flag bits", new_mask & inline_flag == 0, "mask %#x & INLINETICK %#x == 0" % (new_mask, inline_flag), rd.loc())
